@@ -466,8 +466,13 @@ fn run_case(case: &Case) -> String {
         None => PANIC.to_string(),
     };
 
+    let colour_hex = match &coloured {
+        Some(c) => hex(c),
+        None => PANIC.to_string(),
+    };
+
     format!(
-        "({} (plain {plain_hex}) (colour-eq {colour_eq}) (owned-eq {owned_eq}) (owned-plain-eq {owned_plain_eq}))",
+        "({} (plain {plain_hex}) (colour {colour_hex}) (colour-eq {colour_eq}) (owned-eq {owned_eq}) (owned-plain-eq {owned_plain_eq}))",
         case.id
     )
 }
